@@ -75,6 +75,8 @@ type RootD struct {
 	Dash   string        `json:"dash,omitempty"`   // field tagged "-,"
 	Type   string        `json:"type_f,omitempty"` // field Type, tagged "Kind"
 	KindF  string        `json:"kind_f,omitempty"` // field Kind, tagged "kind"
+	Acct   int           `json:"acct,omitempty"`   // field Acct, tagged "acct,omitempty,string"
+	Bare   string        `json:"bare,omitempty"`   // field Bare, tagged ",omitempty"
 	Any    *VD           `json:"any,omitempty"`
 	Row    *VD           `json:"row,omitempty"`  // kinds "row" / "prow": the root value is this Row / a pointer to it
 	Data   *VD           `json:"data,omitempty"` // kind "data" / "pdata": the root value is this value / a pointer to it
@@ -115,13 +117,13 @@ type SeqCase struct {
 // The universes hold the names the ops bind plus names that are only ever read: both tags of the
 // pair "id"/"ID", and wrong-case spellings of tags and field names ("TAGGED", "tAGGED", "Id",
 // "PLAIN", "SUB"), which are neither a field name nor a tag and so must be absent unless bound.
-var bigUniverse = []string{"x", "y", "Plain", "tagged", "Tagged", "hidden", "List", "sub", "Sub", "any", "id", "ID", "Id", "TAGGED", "tAGGED", "PLAIN", "SUB", "ANY", "Title", "Note", "note", "Extra", "Token", "Dash", "TOKEN", "Type", "Kind", "kind"}
+var bigUniverse = []string{"x", "y", "Plain", "tagged", "Tagged", "hidden", "List", "sub", "Sub", "any", "id", "ID", "Id", "TAGGED", "tAGGED", "PLAIN", "SUB", "ANY", "Title", "Note", "note", "Extra", "Token", "Dash", "TOKEN", "Type", "Kind", "kind", "Acct", "acct", "Bare", "bare"}
 var rowUniverse = []string{"x", "Plain", "ID", "Title", "Note", "note", "Extra", "hidden"}
-var smallUniverse = []string{"x", "Plain", "tagged", "hidden", "id", "ID", "TAGGED", "Token", "Dash", "Type", "Kind", "kind"}
+var smallUniverse = []string{"x", "Plain", "tagged", "hidden", "id", "ID", "TAGGED", "Token", "Dash", "Type", "Kind", "kind", "Acct", "acct", "Bare"}
 
 func (r RootD) data() any {
 	mk := func() rootT {
-		t := rootT{Plain: r.Plain, Tagged: r.Tagged, hidden: r.Hidden, Sub: subT{A: r.SubA}, Short: r.Short, Long: r.Long, Token: r.Token, Dash: r.Dash, Type: r.Type, Kind: r.KindF}
+		t := rootT{Plain: r.Plain, Tagged: r.Tagged, hidden: r.Hidden, Sub: subT{A: r.SubA}, Short: r.Short, Long: r.Long, Token: r.Token, Dash: r.Dash, Type: r.Type, Kind: r.KindF, Acct: r.Acct, Bare: r.Bare}
 		if r.List != nil {
 			t.List = append([]int{}, r.List...)
 		}
@@ -491,12 +493,16 @@ func checkReaders(tag string, s *vuego.Stack, path string, exp any, out string, 
 			if glok || gmok {
 				return fmt.Errorf("%s: %q holds a string but GetSlice/GetMap reported %v/%v", tag, path, glok, gmok)
 			}
-		case int:
-			if !giok || gi != e {
-				return fmt.Errorf("%s GetInt(%q) = %d,%v want %d,true", tag, path, gi, giok, e)
+		case bool, int, int8, int16, int32, int64, uint, uint8, uint16, uint32, uint64, float32, float64:
+			text, _, wantInt, intSpecified := numberOracle(e)
+			if !gsok || gs != text {
+				return fmt.Errorf("%s GetString(%q) = %q,%v want %q,true (the text of the %T value %v)", tag, path, gs, gsok, text, e, e)
+			}
+			if intSpecified && (!giok || gi != wantInt) {
+				return fmt.Errorf("%s GetInt(%q) = %d,%v want %d,true (%T value %v)", tag, path, gi, giok, wantInt, e, e)
 			}
 			if glok || gmok {
-				return fmt.Errorf("%s: %q holds an int but GetSlice/GetMap reported %v/%v", tag, path, glok, gmok)
+				return fmt.Errorf("%s: %q holds a %T but GetSlice/GetMap reported %v/%v", tag, path, e, glok, gmok)
 			}
 		case map[string]any:
 			if !gmok || !reflect.DeepEqual(gm, e) {
